@@ -258,8 +258,8 @@ def probe_inflight(prop, tier, seed, stream=""):
             continue
         path = os.path.join(OUT, "probe", f"{prop}-{index}-{k}.json")
         with open(path, "w") as f:
-            json.dump({"property": prop, "signature": f"{prop}/T wall-clock-hang", "scenario": sc}, f, default=prng._default)
-        cmd = [sys.executable, "-B", os.path.join(ROOT, "dst", "main.py"), "replay", path]
+            json.dump({"property": prop, "signature": f"{prop}/T wall-clock-hang", "scenario": sc, "interpreter_flags": interp_flags()}, f, default=prng._default)
+        cmd = [sys.executable, *interp_flags(), "-B", os.path.join(ROOT, "dst", "main.py"), "replay", path]
         jobs.append((index, k, sc, subprocess.Popen(cmd, stdout=subprocess.DEVNULL, stderr=subprocess.DEVNULL, env=dict(os.environ, VERIF_NO_HANG_GUARD="1"))))
     limit = PROBE_TIMEOUT.get(tier, 120)
     deadline = time.monotonic() + limit
@@ -345,8 +345,14 @@ def replay_file(path: str) -> int:
     want = data.get("interpreter_flags") or []
     if want != interp_flags():
         # the violation was found under another interpreter configuration: replay it under that one
+        # (exec, not a child process: whoever started this replay must be able to kill it - a hang probe does)
         cmd = [sys.executable, *want, "-B", os.path.join(ROOT, "dst", "main.py"), "replay", path]
-        return subprocess.run(cmd, env=dict(os.environ, PYTHONOPTIMIZE="" if not want else "1")).returncode
+        envv = dict(os.environ)
+        envv.pop("PYTHONOPTIMIZE", None)
+        if want:
+            envv["PYTHONOPTIMIZE"] = "1"
+        sys.stdout.flush()
+        os.execve(sys.executable, cmd, envv)
     mod = load_check(data["property"])
     if data["signature"].endswith("wall-clock-hang") and not os.environ.get("VERIF_NO_HANG_GUARD"):
         limit = int(os.environ.get("VERIF_REPLAY_TIMEOUT", "60"))
